@@ -49,7 +49,7 @@ UNS = 'ManifestUnsignedData'
 
 DEFECTS = ('unsigned_junk', 'armor_without_block', 'outside_entry', 'outside_junk', 'outside_armor',
            'bad_header', 'truncated_in_headers', 'truncated_in_body', 'truncated_in_signature',
-           'end_line_unterminated', 'body_armor', 'body_junk', 'bad_sigline')
+           'end_line_unterminated', 'body_armor', 'body_junk', 'bad_sigline', 'header_armor', 'sig_armor')
 
 AX_WS, AX_OPQ, AX_NONL = 1, 2, 4
 AXIS_REASON = {AX_WS: 'armor line with trailing whitespace (look-alike or armor?)',
@@ -177,7 +177,12 @@ def scan(A, seq, final_nl, ws_arm, opaque, nonl_fine):
     k = i0 + 1
     # armor headers up to the first blank line
     while k < n and r[k] != R_BLANK:
-        if not (r[k] == R_HD and A.hd_is_header):
+        if r[k] in (R_SB, R_GB, R_GE, R_ARM):
+            # an armor(-like) line among the armor headers is misplaced armor under every reading
+            # (statement: "truncated or misplaced armor is rejected as a syntax error")
+            defects.append('header_armor')
+            framing_ok = False
+        elif not (r[k] == R_HD and A.hd_is_header):
             touched |= AX_OPQ
             if not opaque:
                 defects.append('bad_header')
@@ -213,7 +218,11 @@ def scan(A, seq, final_nl, ws_arm, opaque, nonl_fine):
             pos.append('GB')
             k += 1
             while k < n and r[k] != R_GE:
-                if r[k] not in (R_HD, R_BLANK):
+                if r[k] in (R_SB, R_GB, R_ARM):
+                    # likewise: armor(-like) lines inside the signature block are misplaced armor
+                    defects.append('sig_armor')
+                    framing_ok = False
+                elif r[k] not in (R_HD, R_BLANK):
                     touched |= AX_OPQ
                     if not opaque:
                         defects.append('bad_sigline')
